@@ -60,3 +60,81 @@ Theorem C11_write_order : forall tag kvs,
   map (fun kv => strip_numbering (key_text_xml (fst kv))) (filter (fun kv => negb (special_xml_key (key_text_xml (fst kv)))) kvs).
 Proof. exact populate_order. Qed.
 Print Assumptions C11_write_order.
+
+(* ---- the write / read cycle ------------------------------------------------------------------------- *)
+From DictIO Require Import MiscSpec XmlProofs.
+
+(* The class of element trees (XmlProofs.xml_ok): every element below the root has
+     - a tag without quote characters,
+     - attributes with distinct names that do not start with a digit, values that neither begin nor end with a quote
+       character, and - if there are attributes at all - at least one non-empty value,
+     - text (of elements without children) that, once normalised, neither begins nor end with a quote character,
+     - at most 1000000 children (the six-digit counter does not wrap among siblings);
+   tag, attributes and text of the root element are not looked at by the reader.
+   counter_ok c : -1 <= c <= 999999, the values BorgCounter.theCount can have. *)
+
+(* reading yields the un-numbered entries xml_entries e: one entry per child element, in document order, named by its
+   tag, holding the children's entries, then _content (typed, normalised text), then _attributes (typed values) *)
+Theorem C11_read_entries : forall e c, xml_ok e = true -> counter_ok c ->
+  unnumber (fst (xml_parse true e c)) = xml_entries e.
+Proof. exact xml_read_entries. Qed.
+Print Assumptions C11_read_entries.
+
+(* element order is kept, and with numbering on no element is lost: the keys, un-numbered, are the children's tags in
+   document order (repeated tags included), and the numbered keys are pairwise distinct *)
+Theorem C11_read_order : forall e c, xml_ok e = true -> counter_ok c ->
+  map unnumber_key (map fst (fst (xml_parse true e c))) = map (fun ch => KS (tag_of ch)) (elem_children e)
+  /\ NoDup (map fst (fst (xml_parse true e c))).
+Proof. exact xml_read_order. Qed.
+Print Assumptions C11_read_order.
+
+(* writing the dict that was read gives the element tree back, up to text normalisation: text normalised and re-spelled
+   by the classifier (True / False / None, 5 for +5), attributes with empty value dropped, text next to child elements
+   dropped, root attributes and root text dropped *)
+Theorem C11_write_inverts_read : forall e c, xml_ok e = true -> counter_ok c ->
+  populate (tag_of e) (Dict (fst (xml_parse true e c))) = normalise_root e.
+Proof. exact xml_write_inverts_read. Qed.
+Print Assumptions C11_write_inverts_read.
+
+(* reading, writing and reading again yields the same entries up to the running node numbers *)
+Theorem C11_cycle : forall e c c2, xml_ok e = true -> counter_ok c -> counter_ok c2 ->
+  unnumber (fst (xml_parse true (populate (tag_of e) (Dict (fst (xml_parse true e c)))) c2)) =
+  unnumber (fst (xml_parse true e c)).
+Proof. exact xml_cycle. Qed.
+Print Assumptions C11_cycle.
+
+(* a concrete tree in the class: three levels, repeated tags, attributes, typed, multi-line, empty and blank text *)
+Definition s_ := of_string.
+Definition C11_example : elem :=
+  Elem (s_ "root") [(s_ "ra", s_ "'q'")] (Some (s_ " rt "))
+    [ Elem (s_ "a") [] (Some (s_ "1.5")) [];
+      Elem (s_ "a") [] (Some (s_ " true ")) [];
+      Elem (s_ "b") [] (Some (s_ "None")) [];
+      Elem (s_ "c") [] (Some ([c_lf; c_sp] ++ s_ "line1  " ++ [c_cr; c_lf; c_tab] ++ s_ "line2 " ++ [c_lf; c_sp])) [];
+      Elem (s_ "d") [] (Some []) [];
+      Elem (s_ "e") [] None [];
+      Elem (s_ "f") [(s_ "x", s_ "1"); (s_ "y", []); (s_ "z", s_ "TRUE")] None [];
+      Elem (s_ "g") [(s_ "k", s_ "v")] (Some (s_ "mixed"))
+        [ Elem (s_ "h") [] (Some (s_ "+5")) [];
+          Elem (s_ "i") [] None
+            [ Elem (s_ "j") [] (Some (s_ "007")) []; Elem (s_ "j") [] (Some (s_ "it's")) [] ] ] ].
+Definition C11_example_entries : list (key * tree) :=
+  [ (KS (s_ "a"), Dict [(k_content, Leaf (SFloat (s_ "1.5")))]);
+    (KS (s_ "a"), Dict [(k_content, Leaf (SBool true))]);
+    (KS (s_ "b"), Dict [(k_content, Leaf SNone)]);
+    (KS (s_ "c"), Dict [(k_content, Leaf (SStr (s_ "line1" ++ [c_lf] ++ s_ "line2")))]);
+    (KS (s_ "d"), Dict []);
+    (KS (s_ "e"), Dict []);
+    (KS (s_ "f"), Dict [(k_attributes, Dict [(KS (s_ "x"), Leaf (SInt 1)); (KS (s_ "z"), Leaf (SBool true))])]);
+    (KS (s_ "g"), Dict [ (KS (s_ "h"), Dict [(k_content, Leaf (SInt 5))]);
+                         (KS (s_ "i"), Dict [ (KS (s_ "j"), Dict [(k_content, Leaf (SInt 7))]);
+                                              (KS (s_ "j"), Dict [(k_content, Leaf (SStr (s_ "it's")))]) ]);
+                         (k_attributes, Dict [(KS (s_ "k"), Leaf (SStr (s_ "v")))]) ]) ].
+Example C11_cycle_nonvacuous :
+  xml_ok C11_example = true
+  /\ unnumber (fst (xml_parse true C11_example (-1))) = C11_example_entries
+  /\ unnumber (fst (xml_parse true (populate (tag_of C11_example) (Dict (fst (xml_parse true C11_example (-1))))) 999997))
+     = C11_example_entries
+  /\ keys_nodup (map fst (fst (xml_parse true C11_example (-1)))) = true
+  /\ populate (tag_of C11_example) (Dict (fst (xml_parse true C11_example (-1)))) = normalise_root C11_example.
+Proof. repeat split; vm_compute; reflexivity. Qed.
